@@ -94,9 +94,12 @@ def run(ctx):
                 pub_paths = sorted(pth for pth, t in full_leaves.items() if not is_secret(t, secrets))
                 ob.note('unfiltered output: %d leaves, %d secret (%s ...), %d public' % (
                     len(full_leaves), len(sec_paths), ', '.join(sec_paths[:4]), len(pub_paths)))
-                ob.require(len(sec_paths) >= 17 and len(pub_paths) >= 15,
-                           'the shape of generate() was understood (secret and public leaves found)', fpm.where,
-                           found='%d secret / %d public' % (len(sec_paths), len(pub_paths)))
+                if len(sec_paths) < 17 or len(pub_paths) < 15 or any(T.opaques(t) for t in full_leaves.values()):
+                    ob.undecided('the shape of generate() is not fully computable by the evaluator (%d secret / %d public leaves; %s)' % (
+                        len(sec_paths), len(pub_paths),
+                        '; '.join(sorted({o[1] for t in full_leaves.values() for o in T.opaques(t)}))[:200] or 'floor 17/15 not met'), fpm.where)
+                    continue
+                ob.require(True, 'the shape of generate() was understood (secret and public leaves found)', fpm.where)
                 v, f = ev.call_function('__main__.paranoia_mode', [full])
                 alts = distinct_normal_leaves(v)
                 if not alts or any(T.tag(x) != 'dict' for x in alts):
